@@ -36,12 +36,15 @@ def client_runs(run, n, props):
         case = {"api_boot": True, "election": e.describe(), "lhs": lhs, "rhs": rhs, "stop": stop, "mode": mode, "alphas": alphas,
                 "aggregates": aggs, "B": B}
         extra = {}
+        # the client hands the lists on as they come: list, tuple or set
+        wrap = rng.choice([list, list, tuple, set])
+        case["container"] = wrap.__name__
         if lhs:
-            extra["lhs_called_contests"] = lhs
+            extra["lhs_called_contests"] = wrap(lhs)
         if rhs:
-            extra["rhs_called_contests"] = rhs
+            extra["rhs_called_contests"] = wrap(rhs)
         if stop:
-            extra["stop_model_call"] = stop
+            extra["stop_model_call"] = wrap(stop)
         res = E.run_client(e, estimands=["margin"], alphas=alphas, pi_method="bootstrap", aggregates=aggs,
                            params=E.boot_params(B=B, lambda_=rng.choice([0.5, 2.0])), features=["baseline_normalized_margin"], extra=extra)
         run.case(case, bool(lhs or rhs or stop))
